@@ -346,7 +346,23 @@ def default_modifier(op, **kwargs):
                     for arr in common.expand_arrays(alpha, phi, append=True)
                 ]
             alpha, att = common.expand_arrays(alpha, att, append=True)
-            op = operators.T(alpha * att, phi, name=op.name, duration=op.duration)
+            # keep the declared derivatives: d(att * alpha) = att * d(alpha)
+            scale = lambda coeffs: {
+                param: coeffs[param] * att if param == "alpha" else coeffs[param]
+                for param in coeffs
+            }
+            order1 = {var: scale(op.order1[var]) for var in op.order1}
+            order2 = {pair: scale(op.order2[pair]) for pair in op.order2}
+            auto = op.auto_cross_derivatives
+            op = operators.T(
+                alpha * att,
+                phi,
+                name=op.name,
+                duration=op.duration,
+                order1=order1 or False,
+                order2=order2 or False,
+            )
+            op.auto_cross_derivatives = auto
             op.name += "#"
 
     if np.any(op.duration > 0):
